@@ -83,7 +83,15 @@ struct Env {
         phase = DK_J; // a pdf call (if any proposal is inside) switches to the acceptance phase
         return r;
     }
+    // the probability function may be composed by TasDREAM::posterior() from a likelihood(-model) and a prior
+    std::string posterior = "none"; double priorscale = 1.0;
+    double prior1(const double *x) const { double r2 = 0; for (size_t k = 0; k < d; k++) r2 += x[k] * x[k]; return logform ? -priorscale * r2 : std::exp(-priorscale * r2); }
     double pdf1(const double *x) const {
+        double b = base1(x);
+        if (posterior == "none") return b;
+        return logform ? b + prior1(x) : b * prior1(x);
+    }
+    double base1(const double *x) const {
         double r2 = 0; for (size_t k = 0; k < d; k++) r2 += (x[k] - center[k]) * (x[k] - center[k]);
         if (pdfkind == "gauss") return logform ? -r2 / pdfscale : std::exp(-r2 / pdfscale);
         if (pdfkind == "flat") return logform ? 0.0 : 1.0;
@@ -96,7 +104,20 @@ struct Env {
         size_t m = cand.size() / d;
         PdfCall c; c.cand = cand;
         // "The values vector should not be resized": fill what we are given
-        for (size_t k = 0; k < vals.size() && k < m; k++) vals[k] = pdf1(&cand[k * d]);
+        if (posterior == "none") { for (size_t k = 0; k < vals.size() && k < m; k++) vals[k] = pdf1(&cand[k * d]); }
+        else {
+            // the library combines the pieces; the reference for the recorded values is pdf1() above
+            auto prior = [this](TasDREAM::TypeSamplingForm, const std::vector<double> &cc, std::vector<double> &pv) { size_t q = cc.size() / d; for (size_t k = 0; k < pv.size() && k < q; k++) pv[k] = prior1(&cc[k * d]); };
+            if (posterior == "merged") {
+                auto lm = [this](const std::vector<double> &cc, std::vector<double> &lv) { size_t q = cc.size() / d; for (size_t k = 0; k < lv.size() && k < q; k++) lv[k] = base1(&cc[k * d]); };
+                if (logform) TasDREAM::posterior<TasDREAM::logform>(lm, prior)(cand, vals); else TasDREAM::posterior<TasDREAM::regform>(lm, prior)(cand, vals);
+            } else {
+                auto model = [](const std::vector<double> &cc, std::vector<double> &outs) { outs = cc; };
+                auto like = [this](TasDREAM::TypeSamplingForm, const std::vector<double> &mo, std::vector<double> &lv) { size_t q = mo.size() / d; for (size_t k = 0; k < lv.size() && k < q; k++) lv[k] = base1(&mo[k * d]); };
+                if (logform) TasDREAM::posterior<TasDREAM::logform>(model, like, prior)(cand, vals); else TasDREAM::posterior<TasDREAM::regform>(model, like, prior)(cand, vals);
+            }
+            if (st) st->inc("reach.pdf_composed_by_posterior");
+        }
         c.vals = vals;
         // label the coming acceptance draws: one per in-domain proposal that is not strictly better
         accept_remaining = 0;
@@ -128,13 +149,23 @@ struct Model {
     bool pdfready = false;
 };
 
+struct Runner;
+Runner *g_capi_runner = nullptr; // the C interface takes plain function pointers
+extern "C" void tsgDreamSample(int form, int num_burnup, int num_collect, void (*distribution)(int, int, const double[], double[], int *), void *state_pntr,
+                               void *domain_grid, double domain_lower[], double domain_upper[], int (*domain_callback)(int, const double[]),
+                               const char *iupdate_type, double iupdate_magnitude, void (*iupdate_callback)(int, double[], int *),
+                               int dupdate_percent, double (*dupdate_callback)(), const char *random_type, int random_seed, double (*random_callback)(), int *err);
+
 struct Runner {
     Env env;
+    bool capi = false; // drive the sampler through the C interface (tsgDreamSample) instead of the C++ templates
     std::unique_ptr<TasmanianDREAM> st;
     Model m;
     bool builtin_update = false; TasDREAM::TypeDistribution dist = TasDREAM::dist_null;
 
+    void callSampleC(int burn, int collect);
     void callSample(int burn, int collect) {
+        if (capi) { callSampleC(burn, collect); return; }
         auto pdf = [this](const std::vector<double> &c, std::vector<double> &v) { env.pdf(c, v); };
         auto ins = [this](const std::vector<double> &x) -> bool { return env.inside(x); };
         auto gen = [this]() -> double { return env.gen(); };
@@ -253,6 +284,21 @@ struct Runner {
     }
 };
 
+void c_pdf(int ns, int nd, const double x[], double y[], int *err) { std::vector<double> c(x, x + (size_t)ns * (size_t)nd), v((size_t)ns); g_capi_runner->env.pdf(c, v); for (int i = 0; i < ns; i++) y[i] = v[(size_t)i]; *err = 0; }
+int c_inside(int nd, const double x[]) { return g_capi_runner->env.inside(std::vector<double>(x, x + nd)) ? 1 : 0; }
+void c_iupdate(int nd, double x[], int *err) { std::vector<double> v(x, x + nd); g_capi_runner->env.update(v); for (int i = 0; i < nd; i++) x[i] = v[(size_t)i]; *err = 0; }
+double c_dupdate() { return g_capi_runner->env.diff(); }
+double c_random() { return g_capi_runner->env.gen(); }
+void Runner::callSampleC(int burn, int collect) {
+    g_capi_runner = this;
+    env.phase = DK_J;
+    int err = 0;
+    const char *type = !builtin_update ? "null" : dist == TasDREAM::dist_uniform ? "uniform" : dist == TasDREAM::dist_gaussian ? "gaussian" : "null";
+    tsgDreamSample(env.logform ? 1 : 0, burn, collect, c_pdf, st.get(), nullptr, nullptr, nullptr, c_inside, type, env.updmag, c_iupdate, -1, c_dupdate, "callback", 7, c_random, &err);
+    g_capi_runner = nullptr;
+    if (err != 0) env.st->inc("note.c_interface_returned_error");
+}
+
 void failSplit(Outcome &o, const std::string &cd) {
     size_t p = cd.find('|');
     std::string cls = cd.substr(0, p), det = p == std::string::npos ? "" : cd.substr(p + 1);
@@ -285,10 +331,12 @@ public:
         int total = std::max(B, 0) + C;
         p["split"] = w.chance(0.7) ? w.range(0, total) : -1; // -1: do not split
         p["draw_seed"] = (long long)(w.next() >> 1);
+        p["c_interface"] = w.chance(0.2);
+        p["posterior"] = w.pick<std::string>({"none", "none", "none", "merged", "three"}); p["priorscale"] = w.pick<double>({0.1, 1.0, 3.0});
         if (w.chance(0.3)) { // a second run on the same state object after the caller re-seeded the chains
             Json rs = Json::object(); rs["how"] = w.chance(0.5) ? "function" : "vector";
             Json stv = Json::array(); for (int k = 0; k < n * d; k++) stv.push(Json(w.uniform(-0.9, 0.9))); rs["state"] = stv;
-            rs["burn"] = w.range(0, 4); rs["collect"] = w.range(0, 5);
+            rs["burn"] = w.range(0, 4); rs["collect"] = w.range(0, 5); rs["clear_history"] = w.chance(0.4);
             p["reseed"] = rs;
         }
         // faults: endpoint draws attached to draw kinds
@@ -320,6 +368,7 @@ public:
         std::string u = p.gets("update", "none");
         env.updkind = u; env.updmag = p.getd("updmag", 0.0);
         env.diffkind = p.gets("diff", "one");
+        env.posterior = p.gets("posterior", "none"); env.priorscale = p.getd("priorscale", 1.0);
         env.draws = Rng((uint64_t)p.geti("draw_seed", 1));
         env.st = &st;
         if (p.has("inject")) for (auto const &e : p.at("inject").a) {
@@ -334,6 +383,12 @@ public:
         std::string u = r.env.updkind;
         r.builtin_update = u.rfind("builtin-", 0) == 0;
         r.dist = u == "builtin-uniform" ? TasDREAM::dist_uniform : u == "builtin-gaussian" ? TasDREAM::dist_gaussian : TasDREAM::dist_null;
+        r.capi = p.getb("c_interface");
+        if (r.capi) {
+            st.inc("reach.sampled_through_c_interface");
+            // in the C interface the type "null" means "call the user's update callback": the built-in null update becomes a callback that does nothing
+            if (u == "builtin-null") { r.builtin_update = false; r.env.updkind = "none"; }
+        }
         size_t n = r.env.n, d = r.env.d;
         std::vector<double> init = p.has("init") ? p.at("init").dvec() : std::vector<double>();
         init.resize(n * d, 0.0);
@@ -352,6 +407,7 @@ public:
                 if (reseed->gets("how") == "function") { size_t k = 0; r.st->setState([&](double *x) { for (size_t q = 0; q < d; q++) x[q] = ns[k * d + q]; k++; }); st.inc("reach.reseed_by_function"); }
                 else { r.st->setState(ns); st.inc("reach.reseed_by_vector"); }
                 r.m.state = ns; r.m.pdfready = false;
+                if (reseed->getb("clear_history")) { r.st->clearHistory(); r.m.hist.clear(); r.m.histpdf.clear(); r.m.accepted = 0; st.inc("reach.history_cleared_between_runs"); }
                 for (size_t i = 0; i < n; i++) allowed.emplace_back(ns.begin() + i * d, ns.begin() + (i + 1) * d);
             }
             r.env.resetLogs();
